@@ -20,7 +20,7 @@ type placedPod struct {
 	pod      *v1.Pod
 	node     string
 	live     bool   // counts as "placed there" for anti-affinity (not terminating / evicted)
-	wasOn    string // node the pod occupied at cycle start
+	wasOn    string // node the pod occupied at cycle start (or, for a pod placed and evicted within the cycle, before the eviction)
 	leftInCy bool   // evicted (or moved away) by a call of this cycle
 }
 
@@ -90,6 +90,9 @@ func CheckConstraints(w *World, rec *CycleRecord) ([]Finding, ConstraintFacts) {
 			if pp := byName[c.Pod]; pp != nil {
 				pp.live = false
 				pp.leftInCy = true
+				if pp.wasOn == "" {
+					pp.wasOn = pp.node // placed earlier in this very cycle, evicted (or moved away) now
+				}
 			}
 			continue
 		}
